@@ -67,6 +67,14 @@ static long fetch_and_store(volatile long& x, long v) {
 #endif
 using namespace Potassco::ProgramOptions;
 using namespace std;
+#if defined(POTASSCO_LIBPOTASSCO_VERIF)
+// verification hook: a test scheduler can run code (e.g. deliver a signal) right before each atomic step
+namespace Potassco { void (*verifYield)(int) = 0; }
+static bool verifYieldE(int n) { if (Potassco::verifYield) { Potassco::verifYield(n); } return true; }
+#define POTASSCO_VERIF_YIELD(n) verifYieldE(n)
+#else
+#define POTASSCO_VERIF_YIELD(n)
+#endif
 namespace Potassco {
 /////////////////////////////////////////////////////////////////////////////////////////
 // Application
@@ -183,8 +191,13 @@ int Application::blockSignals() {
 
 // Re-enable signal handling and deliver any pending signal.
 void Application::unblockSignals(bool deliverPending) {
+	POTASSCO_VERIF_YIELD(10);
 	if (fetch_and_dec(blocked_) == 1) {
+		POTASSCO_VERIF_YIELD(11);
 		int pend = static_cast<int>(fetch_and_store(pending_, 0));
+#if defined(POTASSCO_LIBPOTASSCO_VERIF)
+		if (pend && deliverPending) { POTASSCO_VERIF_YIELD(12); }
+#endif
 		// directly deliver any pending signal to our sig handler
 		if (pend && deliverPending) { processSignal(pend); }
 	}
@@ -201,13 +214,20 @@ void Application::sigHandler(int sig) {
 
 // Called on timeout or signal.
 void Application::processSignal(int sig) {
+	POTASSCO_VERIF_YIELD(1);
 	if (fetch_and_inc(blocked_) == 0) {
+		POTASSCO_VERIF_YIELD(2);
 		if (!onSignal(sig)) { return; } // block further signals
 	}
+#if defined(POTASSCO_LIBPOTASSCO_VERIF)
+	else if (!POTASSCO_VERIF_YIELD(3)) { } // never taken (the hook returns true): only yields before pending_ is read
+#endif
 	else if (pending_ == 0) { // signals are currently blocked because output is active
 		info("Queueing signal...");
+		POTASSCO_VERIF_YIELD(4);
 		pending_ = sig;
 	}
+	POTASSCO_VERIF_YIELD(5);
 	fetch_and_dec(blocked_);
 }
 
